@@ -21,6 +21,7 @@ import networkx as nx
 import dynetx as dn
 
 from .core import histories, run_history, new_graph, state_key, Collector, _j
+from .core import sorted          # tolerant of mixed-type node ids (ordered by repr)
 from .parts_core import dump
 
 TOL = 1e-9
@@ -47,7 +48,9 @@ class MinCollector(Collector):
         self.best = {}
 
     def violation(self, check, cls, removal, history, detail, **extra):
-        sig = (check, cls)
+        # the region flags of known findings (d06, d24, ...) are part of the kind: a violation outside a finding's region must
+        # never be merged into (and hidden behind) a record that lies inside it
+        sig = (check, cls) + tuple(sorted((k, bool(x)) for k, x in extra.items() if k.startswith('d') and k[1:].isdigit()))
         v = {'check': check, 'class': cls, 'edge_removal': removal, 'history': _j(history), 'detail': detail}
         v.update(extra)
         rank = (_hsize(history), len(repr(extra.get('args', ''))), len(detail))
@@ -261,7 +264,7 @@ def c17_statistics(tier, seed):
     max_len = 3 if tier == 'quick' else 4
     n_random = 1500 if tier == 'quick' else 12000
     src = itertools.chain(((c, True, h) for c in ('DynGraph', 'DynDiGraph') for h in C17_STRUCTURED),
-                          histories(tier, seed, pairs=C17_PAIRS, max_len=max_len, n_random=n_random))
+                          histories(tier, seed, pairs=C17_PAIRS, max_len=max_len, n_random=n_random, odd_ids=True))
     stats_states = iet_states = 0
     for cls, removal, h in src:
         G, M, outs = run_history(cls, removal, h)
@@ -535,7 +538,10 @@ def inherited_callables(G):
         if not callable(attr):
             continue
         owner = next((k for k in type(G).__mro__ if name in k.__dict__), None)
-        if owner is None or not (owner.__module__ or '').startswith('networkx'):
+        nx_has = any(name in k.__dict__ for k in type(G).__mro__ if (k.__module__ or '').startswith('networkx'))
+        overridden_untimed = (owner is not None and (owner.__module__ or '').startswith('dynetx') and nx_has
+                              and name in ('clear', 'clear_edges', 'update', 'add_weighted_edges_from', 'remove_edges_from', 'remove_nodes_from'))
+        if owner is None or not ((owner.__module__ or '').startswith('networkx') or overridden_untimed):
             continue
         out.append((name, owner.__name__, attr))
     return out
@@ -617,7 +623,7 @@ def freeze_calls(G):
            ('method', 'remove_node', [na], {}), ('method', 'remove_nodes_from', [[na]], {}),
            ('method', 'add_edge', [x, 98], {}), ('method', 'add_edges_from', [[T_(x, 98)]], {}),
            ('method', 'remove_edge', [na, nb], {}), ('method', 'remove_edges_from', [[T_(na, nb)]], {}),
-           ('method', 'clear', [], {}),
+           ('method', 'clear', [], {}), ('method', 'clear_edges', [], {}),
            ('method', 'add_interaction', [x, 98, tmax], {}), ('method', 'add_interaction', [na, nb, tmax], {}),
            ('method', 'add_interaction', [na, nb, tmax, tmax + 3], {}), ('method', 'add_interaction', [na, x], {'t': tmax}),
            ('method', 'add_interactions_from', [[T_(x, 98), T_(na, nb)], tmax], {}),
